@@ -38,3 +38,20 @@ Definition spec_canon_v (fuel : nat) (c : config) (fx : fixes) (m : segs) (s : s
   (if tree_ok t && tree_small pcap t
    then Some (match vdec_res pcap m 0 [] rp with Some v => Some (canon v) | None => None end)
    else None, t).
+
+(* boundary-size inputs: the walker and the step-by-step models are quadratic on the list-based
+   memory, the decoder and the specification are not: spec only, no tree *)
+Definition spec_canon_big (c : config) (m : segs) (s : sel) (lcap : Z) : option (option (list Z)) :=
+  let '(rp, _) := select c m (init_rlimit c) s in
+  match rp with
+  | Ok p => match vdec 64 lcap m 0 [] (as_struct p) with Some v => Some (canon v) | None => None end
+  | _ => None
+  end.
+
+Definition spec_equal_big (ca cb : config) (ma mb : segs) (sa sb : sel) (lcap : Z) : option bool :=
+  let '(rp, _) := select ca ma (init_rlimit ca) sa in
+  let '(rq, _) := select cb mb (init_rlimit cb) sb in
+  match vdec_res lcap ma 0 [] rp, vdec_res lcap mb 1 [] rq with
+  | Some va, Some vb => Some (value_eq va vb)
+  | _, _ => None
+  end.
